@@ -155,17 +155,17 @@ PROPS['C20'] = {
 
 PROPS['C19'] = {
     'level': 'other',
-    'units': ['C19/qindex', 'C19/qgrams', 'C19/lcskpp', 'C19/sdpkpp'],
+    'units': ['C19/qindex', 'C19/qgrams', 'C19/lcskpp', 'C19/sdpkpp', 'C19/kmers'],
     'kani': [],
     'oracle': 'C19',
     'decided': ['QGramIndex::with_max_count builds, for ANY alphabet size (table sized by the bit-packed code space), address/pos tables such that the slice of code g holds exactly the ascending text positions of g (slot r = r-th occurrence), or nothing when g occurs more than max_count times (counting-sort proof over the code sequence)',
                 'qgram_matches returns that slice', 'matches(): no index/overflow/underflow failure for any pattern, including patterns overhanging the text start (signed diagonal)',
                 'q-gram coding (unit C19/qgrams, the real RankTransform::{new, get, get_width, qgrams} and QGrams::{qgram_push, next}): the rank transform is the order-preserving bijection onto 0..|A|; next() returns the bit-packed code enc(ranks of the consumed text) <= mask, None exactly at the end; qgrams() positions the iterator after the q-1 warm-up symbols with bits = ceil(log2|A|) and the all-ones mask corner at q*bits == 64; the coding is INJECTIVE on q-grams (field lemma by bit_vector + induction)'],
-    'decided_extra': ['sparse::lcskpp and sparse::sdpkpp (the real code incl. the Fenwick tree instantiated at the value types (u32,u32) resp. PrevPtr, PrevPtr::new): the returned path is a non-empty chain of valid match indices, each k-mer continuing its predecessor on the diagonal or starting at or after its end in both coordinates (event-order argument: an end event precedes every start event that can use it; Fenwick selection contract: a prefix query returns the default or a value set at an index within the prefix); traceback terminates (x strictly decreases); all u32 arithmetic in range under the `fits` bounds'],
+    'decided_extra': ['hash_kmers, find_kmer_matches, find_kmer_matches_seq1_hashed, find_kmer_matches_seq2_hashed (unit C19/kmers, real code over a stubbed hash map; rules R50 entry-API push, R51): the result is exactly the strictly ascending list of all position pairs (a, b) whose k-mers seq1[a..a+k] and seq2[b..b+k] are equal (every pair is such a pair, none is missing, none twice); hash_kmers maps every k-mer that occurs to the ascending list of its positions and nothing else', 'sparse::lcskpp and sparse::sdpkpp (the real code incl. the Fenwick tree instantiated at the value types (u32,u32) resp. PrevPtr, PrevPtr::new): the returned path is a non-empty chain of valid match indices, each k-mer continuing its predecessor on the diagonal or starting at or after its end in both coordinates (event-order argument: an end event precedes every start event that can use it; Fenwick selection contract: a prefix query returns the default or a value set at an index within the prefix); traceback terminates (x strictly decreases); all u32 arithmetic in range under the `fits` bounds'],
     'decided_extra': ['sparse::lcskpp has the MAXIMUM possible LCSk++ score: the reported score equals the score of the returned chain (k for the first match, +1 for a diagonal continuation, +k for a match starting at or after the end of its predecessor) and no valid chain of the given matches scores more - proved on the real code: the Fenwick tree (instantiated at (u32,u32) with the lexicographic maximum) now has the algebraic contract of unit C18/fenwick (get == prefix fold, set updates every later prefix), the sweep keeps "no entry can be improved by an admissible link" (sweep_ok) in event order, the tree shows every ended match from its end column on and only ended matches with their final score (tree_ok), the running best dominates all entries (best_ok); optimality of all chains then follows by induction over chains (lemma_chain_bound), exactness by following the pointers (lemma_trace_score)'],
     'undecided': [
-                  'exact_matches maximality, matches() hit counts (HashMap entry API has no model)', 'find_kmer_matches* (HashMap over k-mer slices), expand_kmer_matches; for sdpkpp only chain validity is proved (the property claims no optimality for the gap-penalised variant)'],
-    'trusted': ['in C19/qindex the q-gram iterator is a stub whose contract (codes are a function of (ranks, q, text), every code <= mask) is the one proved in C19/qgrams', 'vec_map::VecMap, bit_set::BitSet (ascending iteration; in C20/alphabet: new/insert/contains/len/is_empty as a set) stubs; ceil_log2 float stub; usize::checked_shl spec', 'HashMap entry API stub (no functional spec)', 'slice::Iter::clone keeps the remaining items',
+                  'exact_matches maximality, matches() hit counts (HashMap entry API has no model)', 'expand_kmer_matches; for sdpkpp only chain validity is proved (the property claims no optimality for the gap-penalised variant)'],
+    'trusted': ['in C19/qindex the q-gram iterator is a stub whose contract (codes are a function of (ranks, q, text), every code <= mask) is the one proved in C19/qgrams', 'vec_map::VecMap, bit_set::BitSet (ascending iteration; in C20/alphabet: new/insert/contains/len/is_empty as a set) stubs; ceil_log2 float stub; usize::checked_shl spec', 'HashMap entry API stub (no functional spec) in C19/qindex; in C19/kmers the FxHashMap<&[u8], Vec<u32>> is a stub with a finite-map model (default, get, push_to = entry(k).or_default().push(v))', 'slice::Iter::clone keeps the remaining items',
                 'one listed assume: a diagonal hit counter stays below 2^64', 'lcskpp/sdpkpp units: std specs for slice sort_unstable (permutation, ascending by the lexicographic tuple order of vstd), reverse, binary_search (Ok(i) => equal element; on a strictly sorted slice Err => no equal element), cmp::max (returns one of its arguments); derived Default/Ord of PrevPtr (all-zero default; only selection is used of the order)'],
     'level_text': 'Verus proves the index tables of the real with_max_count (counting sort over the code sequence, any alphabet size) panic-freedom of matches(), the q-gram coding (injective), and chain validity / termination / overflow-freedom of lcskpp and sdpkpp; maximal exact matches and chain optimality are not decided.',
     'level_note': 'Level other (partial). Trusted: q-gram iterator stub contract, HashMap stub, Verus/Z3.',
